@@ -6,6 +6,7 @@ import (
 	"bytes"
 	"fmt"
 	"io"
+	"os"
 	"strconv"
 	"strings"
 
@@ -99,6 +100,16 @@ func lossless(recs []record, allCuts bool) {
 	// the last byte arrives together with io.EOF; a call answers (0, nil)
 	check(&faultio.FragReader{Data: []byte(stream), MaxPerCall: 1, EOFWithData: true}, []int{-2})
 	check(&faultio.FragReader{Data: []byte(stream), ZeroEvery: true}, []int{-3})
+	// the lines come out of an os.Pipe (a file that cannot seek), written in one
+	// piece so that several lines sit in the pipe at once
+	if len(stream) < 60000 {
+		if pr, pw, err := os.Pipe(); err == nil {
+			go func() { pw.Write([]byte(stream)); pw.Close() }()
+			check(pr, []int{-6})
+			io.Copy(io.Discard, pr)
+			pr.Close()
+		}
+	}
 	// the last byte arrives together with an error that is not (exactly) io.EOF
 	check(&faultio.FragReader{Data: []byte(stream), MaxPerCall: 1, EOFWithData: true, FinalErr: fmt.Errorf("connection reset")}, []int{-4})
 	check(&faultio.FragReader{Data: []byte(stream), MaxPerCall: 3, EOFWithData: true, FinalErr: fmt.Errorf("closed: %w", io.EOF)}, []int{-5})
@@ -437,6 +448,15 @@ func edges(part, parts int) {
 				ctx.Add("edge_time_stamps", 1)
 			}
 			n++
+		}
+	}
+	// the same malformed line several times in a row, then a good one: every
+	// copy is an error of its own, the good line comes out as it is
+	if part == 1%parts {
+		for _, bad := range []string{"x5 803C00\n", "99999999999 803C00\n", "- 90\n", "12 9Z\n", "12\n", " 12 80\n"} {
+			for reps := 2; reps <= 3; reps++ {
+				judgeStream("41 903C40\n"+strings.Repeat(bad, reps)+"17 C0\n", "malformed line repeated")
+			}
 		}
 	}
 	// long malformed lines: the error is found early, a long tail follows
